@@ -10,6 +10,7 @@ SimAudioSource; L3 the worker pipeline (real threads under the scheduler) with
 one recording observer.
 """
 import hashlib
+import os
 
 from simkit import sched, seams, sources
 from simkit.tape import mix
@@ -115,7 +116,10 @@ class Engine:
             sc["block_dur"] = C.block_dur_for(bsz, sr)
             sc["params"] = C.gen_split_params(T, bsz / sr)
             sc["abandon"] = T.draw(12)
-            sc["via"] = T.choice(["reader", "source", "overlap"])
+            sc["via"] = T.weighted([(3, "reader"), (3, "source"),
+                                    (3, "overlap"), (1, "rawfile")])
+            if layer == 3 and sc["via"] == "rawfile":
+                sc["via"] = "source"
             sc["hop"] = T.between(1, bsz - 1) if bsz > 1 else None
             if sc["hop"] is None and sc["via"] == "overlap":
                 sc["via"] = "reader"
@@ -132,7 +136,17 @@ class Engine:
             if sc["layer"] == 1:
                 v = self._l1(sc, out)
             elif sc["layer"] == 2:
-                v = self._l2(sc, out)
+                self._tmp = None
+                if sc.get("via") == "rawfile":
+                    seams.bind()
+                    seams.reset_captures(None)
+                    self._tmp = C.scratch_dir()
+                try:
+                    v = self._l2(sc, out)
+                finally:
+                    if self._tmp:
+                        C.rm_scratch(self._tmp)
+                        self._tmp = None
             else:
                 v = self._l3(sc, S, out, want_trace)
         except Exception:
@@ -343,8 +357,23 @@ class Engine:
                     or not hop_dur < sc["block_dur"]):
                 overlap, hop, hop_dur = False, None, None
 
+        rawfile = sc["via"] == "rawfile"
+        nfile = [0]
+        if rawfile:
+            seams.PROXY_FILES["on"] = True
+            out["faults"]["split_over_a_lazily_read_raw_file"] = 1
+
         def start(cutbytes):
-            src = sources.SimAudioSource(data[:cutbytes], sr, sw, ch)
+            src = None
+            if rawfile:
+                # the input is a raw FILE read lazily: what split() pulls
+                # from it is what the library asks of the file object
+                nfile[0] += 1
+                path = os.path.join(self._tmp, "in_%d.raw" % nfile[0])
+                C.write_file(path, data[:cutbytes])
+                src = _FileWatch(os.path.basename(path))
+            else:
+                src = sources.SimAudioSource(data[:cutbytes], sr, sw, ch)
             real = AudioEnergyValidator(C.ETH, sw, ch)
             seen = []          # verdict per frame, in the order judged
 
@@ -352,7 +381,11 @@ class Engine:
                 ok = bool(real.is_valid(frame))
                 seen.append(ok)
                 return ok
-            if overlap:
+            if rawfile:
+                g = split(path, large_file=True, audio_format="raw", sr=sr,
+                          sw=sw, ch=ch, analysis_window=sc["block_dur"],
+                          validator=rec_valid, **kw)
+            elif overlap:
                 g = split(AudioReader(src, block_dur=sc["block_dur"],
                                       hop_dur=hop_dur), validator=rec_valid,
                           **kw)
@@ -380,7 +413,14 @@ class Engine:
             at.append((len(seen), len(src.served_bytes()) // bps,
                        src.eof_returned))
             out["steps"] += 1
-        if src.reads_after_eof or src.eof_returned != 1:
+        if rawfile and regs and not src.reads:
+            # the file is not read through the seam: no vantage point
+            out["probes"]["rawfile_reads_not_observable"] = 1
+            return None
+        if not rawfile and (src.reads_after_eof or src.eof_returned != 1):
+            # ("the source" of the statement is the audio source; how often
+            # a file source asks its FILE for more after the end is not
+            # judged)
             return V("C08.3", "split(): end of stream requested %d time(s), "
                      "%d read(s) after it" % (src.eof_returned,
                                               src.reads_after_eof),
@@ -633,6 +673,34 @@ class Engine:
         out["nontrivial"] = len(got) >= 2 and early >= 1
         res.clear()
         return None
+
+
+class _FileWatch:
+    """What the library has asked of one scratch file so far (through the
+    `open` seam of auditok.io), with the counters of a SimAudioSource."""
+
+    def __init__(self, label):
+        self.label = label
+        self.mark = len(seams.READERS)
+
+    def _rs(self):
+        return [r for r in seams.READERS[self.mark:]
+                if r._label == self.label]
+
+    def served_bytes(self):
+        return bytes(sum(r.served_bytes for r in self._rs()))
+
+    @property
+    def eof_returned(self):
+        return sum(r.eof_returned for r in self._rs())
+
+    @property
+    def reads_after_eof(self):
+        return sum(r.reads_after_eof for r in self._rs())
+
+    @property
+    def reads(self):
+        return sum(r.reads for r in self._rs())
 
 
 def layer_hop(sc):
